@@ -127,6 +127,8 @@ struct Hop {
     uri: RefUri,
     added: Vec<Hdr>,
     suppressed: Vec<&'static str>,
+    /// inherited headers that may or may not be carried over (Authorization where C13 allows it)
+    optional: Vec<&'static str>,
     body: Vec<u8>,
 }
 
@@ -237,7 +239,7 @@ fn chain(ctx: &mut Ctx, prop: &'static str) -> R {
         ctx.count("p:despite_method_with_content_length");
     }
     let seed = ctx.draw(1 << 32);
-    let mut cur = Hop { method: method.clone(), uri: uri0.clone(), added: vec![], suppressed: vec![], body: if needs || despite0 { body_bytes(seed, 0, match framing { Framing::Sized(n, _) => n as usize, _ => ctx.range(0, 40) }) } else { vec![] } };
+    let mut cur = Hop { method: method.clone(), uri: uri0.clone(), added: vec![], suppressed: vec![], optional: vec![], body: if needs || despite0 { body_bytes(seed, 0, match framing { Framing::Sized(n, _) => n as usize, _ => ctx.range(0, 40) }) } else { vec![] } };
     let mut trail: Vec<String> = vec![format!("{} {}", method, uri0.render())];
     let mut depth = 0u32;
 
@@ -521,7 +523,7 @@ fn chain(ctx: &mut Ctx, prop: &'static str) -> R {
             }
         };
         let exp_cfg = ReqCfg { method: cur.method.clone(), version, uri: cur.uri.clone(), orig: orig.clone(), added: cur.added.clone(), despite: (despite0 && depth == 0) || despite_here, framing: if depth == 0 { framing.clone() } else { Framing::None }, expect: false };
-        let exp = expected_head(&exp_cfg, &cur.suppressed);
+        let exp = crate::reqgen::expected_head_opt(&exp_cfg, &cur.suppressed, &cur.optional);
         let head_cmp = compare_head(&parsed, &exp);
         match prop {
             "C13" if depth > 0 => {
@@ -579,10 +581,10 @@ fn chain(ctx: &mut Ctx, prop: &'static str) -> R {
                 }
                 // an added header that equals an inherited one must be there in addition to it
                 for (n, v) in &cur.added {
-                    let want = cur.added.iter().filter(|(an, av)| an == n && av == v).count() + originals.iter().filter(|(on, ov)| on == n && ov == v && !cur.suppressed.contains(&on.as_str())).count();
+                    let want = cur.added.iter().filter(|(an, av)| an == n && av == v).count() + originals.iter().filter(|(on, ov)| on == n && ov == v && !cur.suppressed.contains(&on.as_str()) && !cur.optional.contains(&on.as_str())).count();
                     let got = parsed.fields.iter().filter(|(wn, wv)| wn == n && wv == v).count();
                     if got < want {
-                        fail!("C16.added_header_missing", "duplicate-of-original", "hop {}: header {:?}: {:?} was added {} time(s) and is inherited {} time(s) but is on the wire only {} time(s)", depth, n, show_bytes(v), want - originals.iter().filter(|(on, ov)| on == n && ov == v && !cur.suppressed.contains(&on.as_str())).count(), originals.iter().filter(|(on, ov)| on == n && ov == v && !cur.suppressed.contains(&on.as_str())).count(), got);
+                        fail!("C16.added_header_missing", "duplicate-of-original", "hop {}: header {:?}: {:?} was added {} time(s) and is inherited {} time(s) but is on the wire only {} time(s)", depth, n, show_bytes(v), want - originals.iter().filter(|(on, ov)| on == n && ov == v && !cur.suppressed.contains(&on.as_str()) && !cur.optional.contains(&on.as_str())).count(), originals.iter().filter(|(on, ov)| on == n && ov == v && !cur.suppressed.contains(&on.as_str()) && !cur.optional.contains(&on.as_str())).count(), got);
                     }
                 }
                 if ai < cur.added.len() {
@@ -599,7 +601,7 @@ fn chain(ctx: &mut Ctx, prop: &'static str) -> R {
                 let mut pos = 0usize;
                 for k in &obs.head_pieces {
                     pos += k;
-                    if *k > 0 && !parsed.unit_ends.contains(&pos) {
+                    if *k > 0 && !parsed.unit_ends.contains(&pos) && pos + 2 != parsed.len {
                         fail!("C02.partial_line", "redirected", "hop {}: a head write ended inside a line (offset {})", depth, pos);
                     }
                 }
@@ -720,7 +722,8 @@ fn chain(ctx: &mut Ctx, prop: &'static str) -> R {
         }
         trail.push(format!("{} {} [{}] => {} {}", status, locs.last().unwrap(), form, new_method, target.render()));
         ctx.sig3(form.len() as u64, (target.host != cur.uri.host) as u64 * 2 + (target.scheme != cur.uri.scheme) as u64, 0);
-        cur = Hop { method: new_method, uri: target, added: vec![], suppressed, body: vec![] };
+        let optional = if keep_auth { vec!["authorization"] } else { vec![] };
+        cur = Hop { method: new_method, uri: target, added: vec![], suppressed, optional, body: vec![] };
         flow = next_flow;
         depth += 1;
         set_observed(false);
